@@ -20,10 +20,18 @@ func (f *syntaxAggregateFunction) retrieve(
 	}
 
 	result := values.result
+	isPooled := true
 	if !f.param.isValueGroup() {
 		if arrayParam, ok := values.result[0].([]interface{}); ok {
 			result = arrayParam
+			isPooled = false
 		}
+	}
+	if isPooled {
+		// The pooled buffer is recycled after this call, but the function may
+		// keep or return the list it is given: hand it a list of its own.
+		result = make([]interface{}, len(values.result))
+		copy(result, values.result)
 	}
 
 	filteredValue, err := f.function(result)
